@@ -29,6 +29,7 @@ type phase struct {
 	Engine string
 	Race   bool
 	Budget time.Duration
+	Auto   bool // instrumented build: a yield before every statement of flamego (cmd/autoyield)
 }
 
 type propCfg struct {
@@ -39,20 +40,20 @@ type propCfg struct {
 
 var props = map[string]propCfg{
 	"C03": {Engine: "chain",
-		Quick:    []phase{{"chain", false, 25 * time.Second}, {"chain", true, 15 * time.Second}},
-		Thorough: []phase{{"chain", false, 10 * time.Minute}, {"chain", true, 3 * time.Minute}}},
+		Quick:    []phase{{"chain", false, 25 * time.Second, false}, {"chain", true, 15 * time.Second, false}},
+		Thorough: []phase{{"chain", false, 10 * time.Minute, false}, {"chain", true, 3 * time.Minute, false}}},
 	"C13": {Engine: "rw",
-		Quick:    []phase{{"rw", false, 20 * time.Second}, {"rw", true, 15 * time.Second}},
-		Thorough: []phase{{"rw", false, 6 * time.Minute}, {"rw", true, 4 * time.Minute}}},
+		Quick:    []phase{{"rw", false, 15 * time.Second, false}, {"rw", true, 12 * time.Second, false}, {"rw", false, 8 * time.Second, true}, {"rw", true, 8 * time.Second, true}},
+		Thorough: []phase{{"rw", false, 5 * time.Minute, false}, {"rw", true, 3 * time.Minute, false}, {"rw", false, 2 * time.Minute, true}, {"rw", true, 2 * time.Minute, true}}},
 	"C15": {Engine: "recovery",
-		Quick:    []phase{{"recovery", false, 30 * time.Second}, {"recovery", true, 20 * time.Second}},
-		Thorough: []phase{{"recovery", false, 8 * time.Minute}, {"recovery", true, 6 * time.Minute}}},
+		Quick:    []phase{{"recovery", false, 25 * time.Second, false}, {"recovery", true, 15 * time.Second, false}, {"recovery", false, 10 * time.Second, true}},
+		Thorough: []phase{{"recovery", false, 7 * time.Minute, false}, {"recovery", true, 5 * time.Minute, false}, {"recovery", false, 2 * time.Minute, true}, {"recovery", true, 2 * time.Minute, true}}},
 	"C16": {Engine: "static",
-		Quick:    []phase{{"static", false, 35 * time.Second}, {"static", true, 20 * time.Second}},
-		Thorough: []phase{{"static", false, 10 * time.Minute}, {"static", true, 5 * time.Minute}}},
+		Quick:    []phase{{"static", false, 25 * time.Second, false}, {"static", true, 15 * time.Second, false}, {"static", false, 10 * time.Second, true}},
+		Thorough: []phase{{"static", false, 8 * time.Minute, false}, {"static", true, 4 * time.Minute, false}, {"static", false, 2 * time.Minute, true}, {"static", true, 2 * time.Minute, true}}},
 	"C05": {Engine: "conc",
-		Quick:    []phase{{"conc", false, 25 * time.Second}, {"conc", true, 35 * time.Second}},
-		Thorough: []phase{{"conc", false, 6 * time.Minute}, {"conc", true, 12 * time.Minute}}},
+		Quick:    []phase{{"conc", false, 20 * time.Second, false}, {"conc", true, 25 * time.Second, false}, {"conc", false, 15 * time.Second, true}, {"conc", true, 15 * time.Second, true}},
+		Thorough: []phase{{"conc", false, 5 * time.Minute, false}, {"conc", true, 9 * time.Minute, false}, {"conc", false, 4 * time.Minute, true}, {"conc", true, 6 * time.Minute, true}}},
 }
 
 // Summary mirrors cmd/sim's batch summary.
@@ -107,14 +108,35 @@ func goEnv() []string {
 	return env
 }
 
-func build(race bool) (string, error) {
+func build(race bool) (string, error) { return buildX(race, false) }
+
+// buildX builds the worker against /repo's working tree with the hooks on; auto additionally
+// substitutes (go build -overlay) an instrumented copy of flamego's sources that yields before
+// every statement. /repo itself is never modified.
+func buildX(race, auto bool) (string, error) {
 	out := filepath.Join(verifDir, ".bin", "sim")
-	args := []string{"build", "-tags", "verif", "-o"}
+	args := []string{"build", "-tags", "verif"}
+	if auto {
+		out += "-auto"
+		ay := filepath.Join(verifDir, ".bin", "autoyield")
+		cmd := exec.Command("go", "build", "-o", ay, "./cmd/autoyield")
+		cmd.Dir = filepath.Join(verifDir, "sim")
+		cmd.Env = goEnv()
+		if b, err := cmd.CombinedOutput(); err != nil {
+			return "", fmt.Errorf("build of the instrumenter failed: %v\n%s", err, b)
+		}
+		dir := filepath.Join(verifDir, ".cache", "auto")
+		os.RemoveAll(dir)
+		if b, err := exec.Command(ay, "/repo", dir).CombinedOutput(); err != nil {
+			return "", fmt.Errorf("instrumentation failed: %v\n%s", err, b)
+		}
+		args = append(args, "-overlay", filepath.Join(dir, "overlay.json"))
+	}
 	if race {
 		out += "-race"
-		args = []string{"build", "-race", "-tags", "verif", "-o"}
+		args = append(args, "-race")
 	}
-	args = append(args, out, "./cmd/sim")
+	args = append(args, "-o", out, "./cmd/sim")
 	cmd := exec.Command("go", args...)
 	cmd.Dir = filepath.Join(verifDir, "sim")
 	cmd.Env = goEnv()
@@ -168,6 +190,9 @@ func runPhase(ph phase, bin string, seed uint64, tmp string) *phaseResult {
 	var wg sync.WaitGroup
 	var mu sync.Mutex
 	tag := ph.Engine
+	if ph.Auto {
+		tag += "-auto"
+	}
 	if ph.Race {
 		tag += "-race"
 	}
@@ -185,7 +210,7 @@ func runPhase(ph phase, bin string, seed uint64, tmp string) *phaseResult {
 				ctx, cancelCtx := context.WithTimeout(context.Background(), remaining+remaining/2+120*time.Second)
 				defer cancelCtx()
 				cmd := exec.CommandContext(ctx, bin, args...)
-				cmd.Env = append(os.Environ(), "GOMAXPROCS=2", "GOGC=400", "SIM_TMP="+tmp)
+				cmd.Env = append(os.Environ(), "GOMAXPROCS=2", "GOGC=400", "SIM_TMP="+tmp, autoEnv(ph.Auto))
 				if ph.Race {
 					cmd.Env = append(cmd.Env, "GORACE=halt_on_error=1 exitcode=66 log_path="+base+".racelog")
 				}
@@ -401,22 +426,33 @@ func main() {
 	defer os.RemoveAll(tmp)
 
 	bins := map[bool]string{}
+	abins := map[bool]string{}
 	for _, ph := range phases {
-		if _, ok := bins[ph.Race]; !ok {
-			b, err := build(ph.Race)
+		m := bins
+		if ph.Auto {
+			m = abins
+		}
+		if _, ok := m[ph.Race]; !ok {
+			b, err := buildX(ph.Race, ph.Auto)
 			if err != nil {
 				os.RemoveAll(tmp)
 				fatal(2, "%v", err)
 			}
-			bins[ph.Race] = b
+			m[ph.Race] = b
 		}
+	}
+	binOf := func(ph phase) string {
+		if ph.Auto {
+			return abins[ph.Race]
+		}
+		return bins[ph.Race]
 	}
 	known := loadKnown()
 	var results []*phaseResult
 	for pi, ph := range phases {
 		seed := seed + uint64(pi)*1000003
-		fmt.Printf("phase engine=%s race=%v budget=%s workers=%d seed=%d\n", ph.Engine, ph.Race, ph.Budget, workers, seed)
-		pr := runPhase(ph, bins[ph.Race], seed, tmp)
+		fmt.Printf("phase engine=%s race=%v autoyield=%v budget=%s workers=%d seed=%d\n", ph.Engine, ph.Race, ph.Auto, ph.Budget, workers, seed)
+		pr := runPhase(ph, binOf(ph), seed, tmp)
 		pr.Seed = seed
 		results = append(results, pr)
 		fmt.Printf("  runs=%d cases=%d nontrivial=%d steps=%d violations=%d racehits=%d infra=%d wall=%.1fs\n", pr.Sum.Runs, pr.Sum.Evaluations, pr.Sum.Nontrivial, pr.Sum.Steps,
@@ -443,7 +479,7 @@ func main() {
 				continue
 			}
 			// confirm by replaying the minimised file in a fresh process
-			ok, out := replayFresh(bins[pr.Phase.Race], v.Replay)
+			ok, out := replayFresh(binOf(pr.Phase), v.Replay)
 			fmt.Printf("violation %s\n%s\n", v.Class, v.V.Detail)
 			if !ok {
 				fmt.Printf("  (fresh-process replay did not reproduce: %s)\n", tail(out, 400))
@@ -471,7 +507,7 @@ func main() {
 				harnessRaces++
 				continue
 			}
-			path := confirmRace(bins, pr.Phase, pr.Seed, h, tmp, id)
+			path := confirmRace(binOf(phase{Race: false, Auto: pr.Phase.Auto}), binOf(pr.Phase), pr.Phase, pr.Seed, h, tmp, id)
 			fmt.Printf("data race in run %d (%s)\n%s\n", h.Index, cls, head(h.Report, 3500))
 			if path == "" {
 				fmt.Fprintln(os.Stderr, "INFRASTRUCTURE: could not record the racing run")
@@ -521,7 +557,7 @@ func replayFresh(bin, path string) (bool, string) {
 	ctx, cancel := context.WithTimeout(context.Background(), 120*time.Second)
 	defer cancel()
 	cmd := exec.CommandContext(ctx, bin, "replay", "-q", "-file", path)
-	cmd.Env = append(os.Environ(), "GOMAXPROCS=2")
+	cmd.Env = append(os.Environ(), "GOMAXPROCS=2", autoEnv(strings.Contains(filepath.Base(bin), "-auto")))
 	b, err := cmd.CombinedOutput()
 	if ee, ok := err.(*exec.ExitError); ok && ee.ExitCode() == 1 && bytes.Contains(b, []byte("VIOLATION property=")) {
 		return true, string(b)
@@ -532,29 +568,35 @@ func replayFresh(bin, path string) (bool, string) {
 // confirmRace re-executes the racing run alone in fresh processes, records
 // its tape with the plain binary (the run is the same: the race build changes
 // no choice), and writes the replay file.
-func confirmRace(bins map[bool]string, ph phase, seed uint64, h *raceHit, tmp, id string) string {
-	plain := bins[false]
+func confirmRace(plain, raceBin string, ph phase, seed uint64, h *raceHit, tmp, id string) string {
 	if plain == "" {
-		b, err := build(false)
+		b, err := buildX(false, ph.Auto)
 		if err != nil {
 			return ""
 		}
 		plain = b
-		bins[false] = b
 	}
 	out := filepath.Join(verifDir, "replays", fmt.Sprintf("%s-%s-race-%d-%d.json", id, ph.Engine, seed, h.Index))
 	cmd := exec.Command(plain, "tape", "-engine", ph.Engine, "-seed", strconv.FormatUint(seed, 10), "-index", strconv.FormatUint(h.Index, 10),
 		"-property", id, "-rule", "data-race", "-detail", raceClass(h.Report), "-report", head(h.Report, 6000), "-out", out)
+	cmd.Env = append(os.Environ(), "SIM_TMP="+tmp, autoEnv(ph.Auto))
 	if b, err := cmd.CombinedOutput(); err != nil {
 		fmt.Fprintf(os.Stderr, "tape: %v %s\n", err, b)
 		return ""
 	}
 	// minimise with child processes of the race build, then confirm
-	cmd = exec.Command(bins[true], "shrinkrace", "-file", out, "-budget", "90s")
-	cmd.Env = append(os.Environ(), "GOMAXPROCS=2", "GORACE=log_path=/dev/null exitcode=0")
+	cmd = exec.Command(raceBin, "shrinkrace", "-file", out, "-budget", "90s")
+	cmd.Env = append(os.Environ(), "GOMAXPROCS=2", "GORACE=log_path=/dev/null exitcode=0", "SIM_TMP="+tmp, autoEnv(ph.Auto))
 	b, _ := cmd.CombinedOutput()
 	fmt.Printf("  race minimisation: %s\n", strings.TrimSpace(tail(string(b), 600)))
 	return out
+}
+
+func autoEnv(auto bool) string {
+	if auto {
+		return "SIM_AUTO=1"
+	}
+	return "SIM_AUTO=0"
 }
 
 func doReplay(path string) {
@@ -565,15 +607,16 @@ func doReplay(path string) {
 	var rf struct {
 		Build struct {
 			Race bool `json:"race"`
+			Auto bool `json:"autoyield"`
 		} `json:"build"`
 	}
 	json.Unmarshal(b, &rf)
-	bin, err := build(rf.Build.Race)
+	bin, err := buildX(rf.Build.Race, rf.Build.Auto)
 	if err != nil {
 		fatal(2, "%v", err)
 	}
 	cmd := exec.Command(bin, "replay", "-file", path)
-	cmd.Env = append(os.Environ(), "GOMAXPROCS=2")
+	cmd.Env = append(os.Environ(), "GOMAXPROCS=2", autoEnv(rf.Build.Auto))
 	cmd.Stdout, cmd.Stderr = os.Stdout, os.Stderr
 	err = cmd.Run()
 	if ee, ok := err.(*exec.ExitError); ok {
@@ -632,7 +675,7 @@ func writeEvidence(id, mode string, seed uint64, results []*phaseResult, nviol i
 		if pr.Sum.DistinctRule != "" {
 			rule = pr.Sum.DistinctRule
 		}
-		phasesOut = append(phasesOut, map[string]any{"engine": pr.Phase.Engine, "race_build": pr.Phase.Race, "budget_s": pr.Phase.Budget.Seconds(),
+		phasesOut = append(phasesOut, map[string]any{"engine": pr.Phase.Engine, "race_build": pr.Phase.Race, "autoyield_build": pr.Phase.Auto, "budget_s": pr.Phase.Budget.Seconds(),
 			"master_seed": pr.Seed, "runs": pr.Sum.Runs, "cases": pr.Sum.Evaluations, "nontrivial_cases": pr.Sum.Nontrivial, "distinct_nontrivial": len(pr.Sigs), "steps": pr.Sum.Steps,
 			"blocked_handovers": pr.Sum.Blocked, "race_reports": len(pr.RaceHits), "workers": pr.Workers, "wall_s": pr.Wall})
 	}
